@@ -75,7 +75,9 @@ pub fn oracle(case: &SpCase, res: &SpResult) -> (Option<(String, String)>, Vec<&
                 // "when a duplicate / a FIN arrives": the peer retransmits the FIN that was already honoured (the
                 // acknowledgement got lost). While the connection task lives that duplicate is acknowledged at once.
                 if p.ptype == refparse::ST_FIN && fin_seen && fin_k == Some(rel(p.seq)) {
-                    let ended_before = res.conn_events.iter().any(|e| e.kind == "vsock-end" && e.ord < r.ord);
+                    // (the end of the task at this very instant — a timer that expires just as the packet arrives — counts
+                    // as before: same-instant rule K2)
+                    let ended_before = res.conn_events.iter().any(|e| e.kind == "vsock-end" && (e.ord < r.ord || e.t_us <= r.t_us));
                     let reset_before = evs[..ei].iter().any(|e| matches!(e, Ev::Rx(_, q) if q.ptype == refparse::ST_RESET && q.conn_id == res.id_to_sock));
                     if !ended_before && !reset_before {
                         labels.insert("peer_fin_retransmitted");
